@@ -83,7 +83,7 @@ DICT = {
   "scc": ["9420", "942f", "94ae", "9425", "94ad", "9429", "942c", "zzzz", "94", ";", "\t", "Scenarist_SCC V1.0", "00:00:00:00\t", "1c20", "9120",
           "91b0", "9220", "97a1", "8080", "\n\n", "99:99:99:99\t"],
   "imsc": [' timeContainer="seq"', ' tts:ruby="text"', ' tts:ruby="container"', ' begin="1f"', ' ttp:frameRate="0"', ' dur="1t"', ' end="-1s"',
-           ' tts:extent="auto"', ' tts:fontSize="1x"', ' tts:textShadow="1px"', ' style="nope"', ' region="nope"', "<br/>", "<set/>", "</p>",
+           ' tts:extent="auto"', ' tts:fontSize="1x"', ' tts:textShadow="1px"', ' style="nope"', ' style="s0"', ' style="s1 s0"', ' region="nope"', "<br/>", "<set/>", "</p>",
            "<span>", ' xml:space="preserve"', ' tts:position="center"', ' tts:direction="AUTO"', ' ttp:cellResolution="0 0"',
            ' tts:lineHeight="125%"', ' ittp:activeArea="1% 2% 300% 4%"', ' ttp:tickRate="0"', "&#0;", "<!-- c -->", "<?pi?>",
            ' begin="1.0001s" end="1.0004s"', ' begin="1.0006s" end="1.0012s"', ' dur="0.0007s"', '<set tts:color="red" dur="1s"/>', ' end="0.0003s"', ' tts:display="block"', ' tts:textAlign="justify"', ' tts:writingMode="x"',
@@ -540,6 +540,10 @@ CATALOG = [
   ("imsc", (TT % ("", "<body begin=\"100000000000000000000:00:01\"><div><p dur=\"2s\">a</p><p begin=\"3s\">b</p></div></body>")).encode()),
   ("imsc", (TT % ("", "<body begin=\"100000000000000000001:00:01\"><div><p dur=\"2s\">a</p><p begin=\"3s\">b</p></div></body>")).encode()),
   ("imsc", (TT % ("", "<body begin=\"123456789012345678:00:01\"><div><p begin=\"1s\">b</p></div></body>")).encode()),
+  # loops in chained style references: a style that lists itself, two that list each other, a loop of three entered from outside
+  ("imsc", (TT % ("", "<head><styling><style xml:id=\"s0\" style=\"s0\" tts:color=\"red\"/></styling></head><body style=\"s0\"><div><p>a</p></div></body>")).encode()),
+  ("imsc", (TT % ("", "<head><styling><style xml:id=\"s0\" style=\"s1\"/><style xml:id=\"s1\" style=\"s0 s1\" tts:color=\"red\"/></styling></head><body><div><p style=\"s1\">a</p></div></body>")).encode()),
+  ("imsc", (TT % ("", "<head><styling><style xml:id=\"a\" style=\"b\"/><style xml:id=\"b\" style=\"c\"/><style xml:id=\"c\" style=\"d a\"/><style xml:id=\"d\" style=\"b\"/><style xml:id=\"e\" style=\"a\"/></styling><layout><region xml:id=\"r\" style=\"e\"/></layout></head><body region=\"r\"><div><p>a</p></div></body>")).encode()),
   # timeContainer on the elements whose implicit duration is indefinite (region, br, set), with children
   ("imsc", (TT % ("", "<head><layout><region xml:id=\"r\" timeContainer=\"seq\"><set tts:backgroundColor=\"red\" dur=\"1s\"/><set tts:backgroundColor=\"blue\" dur=\"1s\"/></region></layout></head><body region=\"r\"><div><p end=\"3s\">a<br timeContainer=\"seq\"><set tts:color=\"red\" dur=\"1s\"/></br>b<set timeContainer=\"seq\" tts:color=\"red\"><metadata/></set></p></div></body>")).encode()),
   ("imsc", (TT % ("", "<head><layout><region xml:id=\"r\" timeContainer=\"seq\" begin=\"1s\"><style tts:color=\"red\"/><set tts:opacity=\"0\" end=\"1s\"/></region></layout></head><body timeContainer=\"seq\"><div region=\"r\" timeContainer=\"seq\"><p>a<br/>b</p><p dur=\"1s\">c</p></div></body>")).encode()),
